@@ -6,7 +6,7 @@
     operator_table_sound cmp_probe_agrees prec_probe_agrees function_table_sound
     nodetest_table_sound axis_table_sound pred_eval_sound pred_outcome_sound
     substring_not_xpath ne_absent_not_xpath step_matches_eq_xp parser_rejects_outside
-    select_eq_xp_step select_eq_xp_chain parser_accepts_subset_partial
+    select_eq_xp_step select_eq_xp_chain select_eq_xp_childpath parser_accepts_subset_partial
 -/
 import Genshi.Model.Path
 import Genshi.Model.PathParse
@@ -18,6 +18,7 @@ import Genshi.Lemmas.PathXp
 import Genshi.Lemmas.PathSelect
 import Genshi.Lemmas.PathChain
 import Genshi.Lemmas.PathParseChain
+import Genshi.Lemmas.PathChildPath
 namespace Genshi.Props.C05
 open Genshi Genshi.Path
 
@@ -446,6 +447,83 @@ example : select [childChain [.localName false ['a'], .localName false ['b']]] [
     = [.ev (.start ⟨[], ['b']⟩ []), .ev (.end_ ⟨[], ['b']⟩)] := by decide +kernel
 example : (Node.elem ⟨[], ['r']⟩ [] [Node.elem ⟨[], ['a']⟩ [] [Node.elem ⟨[], ['b']⟩ [] []],
         Node.elem ⟨[], ['b']⟩ [] []]).good = true := by decide +kernel
+
+/-- **select_eq_xp**, stages 2 and 3 for child-axis paths.  For every location path
+    `s1/s2/…/sn` whose steps are on the child axis — any node tests, any number of predicates
+    per step, positional predicates counted per context node as XPath demands (`tr/td[1]`,
+    `li[2]/ul`, `items/item[@status="closed" and not(@resolution)]/summary/text()`) — and every
+    element tree, `Path.select` under GenericStrategy (the strategy `Path.__init__` picks as
+    soon as a step has a predicate or a test other than a name / text() / comment()) delivers
+    exactly `Ref.xpSelect`.
+    Proof (`Lemmas/PathChildPath.lean`): GenericStrategy's single live position per depth and
+    its counter store are followed through the tree (`generic_live`, with a frame condition
+    for the counters of the ancestors' context nodes); the hits among the children of one
+    context node are the one-pass filter (`sfilter`), which is XPath's successive filtering
+    (`sfilter_eq_fpreds`, `fpreds_eq_filterPreds`) with `pred_eval_sound` for each candidate;
+    `chainAtP_reach` identifies the result with `Ref.reach`; `emitV_pick` with the outermost
+    subtrees `Path.select` emits.
+    Hypotheses: for every node of the tree hygienic names / distinct attributes and predicates
+    clear of the pinned absent-attribute comparison (`NodeFor`), predicates in the typed
+    fragment, bound prefixes, no namespace / CDATA marker leaves.
+
+    Still open: paths with descendant / descendant-or-self / self steps after the first step
+    (several live positions and shared counters in GenericStrategy), final attribute step,
+    unions. -/
+theorem select_eq_xp_childpath (p : LocPath) (hp : ChildPath p) (hne : p ≠ []) (ns : NsMap) (vs : Vars)
+    (tag : QName) (attrs : AttrList) (kids : List Node)
+    (hcl : (Node.elem tag attrs kids).clean = true)
+    (hnodes : AllNodes (NodeFor p ns vs) (.elem tag attrs kids))
+    (hwf : ∀ s ∈ p, s.test.elemWf ns) (htyped : ∀ s ∈ p, ∀ q ∈ s.preds, q.typed ns vs = true) :
+    select [p] ns vs (Node.elem tag attrs kids).flatten (some .generic)
+      = Ref.xpSelect [p] ns (toXVars vs) (.elem tag attrs kids) := by
+  have hkcl : cleanList kids = true := by simpa [Node.clean] using hcl
+  have hrok : (Node.elem tag attrs kids).ok = true := ok_of_clean _ hcl
+  obtain ⟨s0, rest', rfl⟩ : ∃ s0 rest', p = s0 :: rest' := by
+    cases p with
+    | nil => exact absurd rfl hne
+    | cons a b => exact ⟨a, b, rfl⟩
+  have hax0 : s0.axis = .child := hp s0 List.mem_cons_self
+  have hg : gSteps (s0 :: rest') false = dotSlash :: s0 :: rest' := by simp [gSteps, hax0]
+  have hokv : okVals (runOne (gStep (dotSlash :: s0 :: rest') ns vs) gInit (Node.elem tag attrs kids).flatten).1
+      (eventLocs (.elem tag attrs kids) []) :=
+    okVals_run _ (gStep_out _ ns vs (fun e => lastResult_childPath ns (s0 :: rest') hp hne e)) _ [] _
+  have hlastax : ∀ last, (s0 :: rest').getLast? = some last → last.axis = .child :=
+    fun last hl => hp last (List.mem_of_getLast? hl)
+  unfold select
+  simp only [pathTest, List.map_cons, List.map_nil, mkMatcher, hg]
+  rw [selectGo_eq_emitV, runTest_generic', emitV_pick _ hrok [] _ hokv]
+  unfold Ref.xpSelect
+  have hasel : Ref.attrsSelected [s0 :: rest'] ns (toXVars vs) ⟨[], .elem tag attrs kids⟩ = fun _ => [] := by
+    funext n
+    unfold Ref.attrsSelected
+    cases n.node with
+    | leaf e => rfl
+    | elem t a ks =>
+      simp only [List.any_cons, List.any_nil, Bool.or_false]
+      cases hl : (s0 :: rest').getLast? with
+      | none => simp
+      | some last =>
+        have := hlastax last hl
+        exact List.filter_eq_nil_iff.mpr (fun _ _ => by simp [this])
+  rw [hasel]
+  apply pick_congr
+  intro m _
+  simp only [selOf, generic_childpath_matches ns vs (s0 :: rest') hp hne tag attrs kids hkcl, contains_map_loc,
+    Ref.nodeSelected, List.any_cons, List.any_nil, Bool.or_false]
+  rw [chainAtP_reach ns vs (s0 :: rest') (s0 :: rest') (fun _ h => h) hp hwf htyped ⟨[], .elem tag attrs kids⟩ hnodes m]
+  cases hl : (s0 :: rest').getLast? with
+  | none => simp [List.getLast?_eq_none_iff] at hl
+  | some last => simp [hlastax last hl]
+
+-- non-vacuity: `tr/td[1]` on <t><tr><td/><td/></tr><tr><td/></tr></t> selects the first td of each row
+example : select [[⟨.child, .localName false ['t','r'], []⟩,
+                   ⟨.child, .localName false ['t','d'], [.num (.dec false 1 0)]⟩]] [] []
+    (Node.elem ⟨[], ['t']⟩ []
+      [Node.elem ⟨[], ['t','r']⟩ [] [Node.elem ⟨[], ['t','d']⟩ [(⟨[], ['i']⟩, ['1'])] [],
+                                     Node.elem ⟨[], ['t','d']⟩ [(⟨[], ['i']⟩, ['2'])] []],
+       Node.elem ⟨[], ['t','r']⟩ [] [Node.elem ⟨[], ['t','d']⟩ [(⟨[], ['i']⟩, ['3'])] []]]).flatten (some .generic)
+    = [.ev (.start ⟨[], ['t','d']⟩ [(⟨[], ['i']⟩, ['1'])]), .ev (.end_ ⟨[], ['t','d']⟩),
+       .ev (.start ⟨[], ['t','d']⟩ [(⟨[], ['i']⟩, ['3'])]), .ev (.end_ ⟨[], ['t','d']⟩)] := by decide +kernel
 
 /-! ## Witnesses of the recorded findings: the full statement is false of the model there -/
 
